@@ -95,8 +95,11 @@ pub fn layer_of(layer: usize, path: &str) -> usize {
             return i;
         }
     }
-    0
+    OUTSIDE_LAYERS
 }
+
+/// a path of the shared filesystem that lies in no layer directory at all
+pub const OUTSIDE_LAYERS: usize = usize::MAX - 1;
 
 impl RecFS {
     fn rec(&self, method: &'static str, path: &str, path2: Option<&str>, mutating: bool) {
